@@ -14,7 +14,8 @@ RULE = ("OMML trees rendered to XML and converted by omml_to_latex. Exhaustive p
         "malformed radicals, oMathPara roots. Oracle: totality, determinism, each run's unique token exactly once and mapped texts in source order, "
         "brace balance (trees without literal braces), and full match against an independently written reference renderer (regex over the "
         "whitespace-free output; trees without malformed radicals). Non-trivial = >= 2 structural elements with one nested in an operand of another, "
-        "or a missing optional child/attribute; distinct by tree digest.")
+        "or a missing optional child/attribute; distinct by tree digest. Call sites: 1-4 DOCX files with 1-12 formulas each (and a batch of 6 x 40), extracted one after another in one "
+        "process; the formulas reported and the LaTeX inside get_full_text() must equal what the converter gives for the same element on its own, in source order.")
 ASSUMPTIONS = ["generated trees follow the OMML schema's child order; a missing m:val is treated as 'default or nothing' (either is accepted)",
                "output is compared modulo whitespace; the documented forms are those of the module docstring and README"]
 
@@ -194,13 +195,77 @@ def known_replays(ctx: Ctx, part: Partial):
         part.case(digest(root), True)
 
 
-def embedded(ctx: Ctx, part: Partial):
-    """The call sites: a formula inside a DOCX paragraph / PPTX text box must reach get_full_text() unchanged."""
-    try:
-        from vf.gen import ooxml_min
-    except ImportError:
-        return
-    ooxml_min.check_formula_call_sites(ctx, part)
+def _docx_with_formulas(roots, seed):
+    """One DOCX: per formula a paragraph 'ZB.. <formula> ZB..' (inline) or a display paragraph, in order."""
+    from vf.gen import ooxml
+    from vf.gen.tokens import make
+    blocks = []
+    for i, r in enumerate(roots):
+        blocks.append({"k": "p", "inl": [{"k": "t", "tok": make("B", 9000 + seed * 100 + i), "sty": 0}], "h": None})
+        blocks.append({"k": "math", "omml": {"para": False, "maths": [r["maths"][0]]}, "display": bool(r.get("para"))})
+    return ooxml.render_docx({"props": {}, "units": [{"name": None, "blocks": blocks, "notes": None}], "header": None, "footer": None, "comments": []})
+
+
+def judge_embedded(docs: list[list]) -> list[tuple[str, str]]:
+    """docs: several documents (each a list of OMML roots) extracted one after another in this process, earlier results released.
+    The formulas the DOCX extractor reports must be what the converter gives for the same element on its own, in source order."""
+    import gc
+    import io
+    from sharepoint2text.parsing.extractors.util.omml_to_latex import omml_to_latex
+    from sharepoint2text.parsing.router import get_extractor
+    for di, roots in enumerate(docs):
+        data = _docx_with_formulas(roots, di)
+        want = []
+        for r in roots:
+            try:
+                want.append(omml_to_latex(ET.fromstring(omml.omath_xml(r["maths"][0]))))
+            except Exception:  # noqa
+                return []           # totality is judged by the tree legs
+        want = [w for w in want if w and w.strip()]
+        try:
+            res = list(get_extractor("x.docx")(io.BytesIO(data), "x.docx"))
+        except Exception as e:  # noqa
+            return [("call-site", f"document {di + 1} of {len(docs)}: extraction raised {type(e).__name__}: {e}")]
+        got = [f.latex for f in res[0].formulas]
+        text = _WS.sub("", res[0].get_full_text())
+        del res
+        gc.collect()
+        # the formulas list groups display formulas before inline ones; its order is not part of the property, so it is compared as a multiset
+        gs, ws = sorted(_WS.sub("", g) for g in got), sorted(_WS.sub("", w) for w in want)
+        if gs != ws:
+            return [("call-site", f"document {di + 1} of {len(docs)} (extracted one after another): formulas reported {[g for g in gs if g not in ws][:3]} are not what the converter gives "
+                                  f"for the document's elements ({[w for w in ws if w not in gs][:3]} expected instead); {len(gs)} reported, {len(ws)} in the source")]
+        pos = 0
+        for w in want:
+            w = _WS.sub("", w)
+            i = text.find(w, pos)
+            if i < 0:
+                return [("call-site", f"document {di + 1} of {len(docs)}: LaTeX {w!r} missing from get_full_text() or out of order")]
+            pos = i + len(w)
+    return []
+
+
+def embedded_shard(ctx: Ctx):
+    """The call sites: formulas inside DOCX paragraphs, several documents per process."""
+    from hypothesis import strategies as st
+    part = Partial()
+    docs = st.lists(st.lists(omml.roots(max_depth=3, allow_malformed=False), min_size=1, max_size=12), min_size=1, max_size=4)
+
+    from vf.props.c08 import in_fresh_fork
+
+    def ev(ds):
+        fails = in_fresh_fork(judge_embedded, ds)        # each history of documents starts in a process that has extracted nothing yet, so a reported history replays as it stands
+        part.case(digest(["embedded", ds]), len(ds) >= 2 and sum(len(d) for d in ds) >= 4, sample={"documents": len(ds), "formulas": [len(d) for d in ds]} if part.evaluations % 23 == 0 else None, leg="embedded")
+        return [Violation(c, f"C19:{c}", d, {"kind": "embedded", "docs": ds}) for c, d in fails[:1]]
+    hyp_search(ctx, "embedded", docs, ev, ctx.n(64, 800) // ctx.nshards + 1, part)
+    if ctx.shard:
+        return part
+    # many same-shaped documents in a row (what a batch job does): 6 documents x 40 one-run formulas
+    big = [[{"para": False, "maths": [[{"k": "r", "t": f"{'abcdefghkmnpquvwxyz'[(d * 40 + i) % 19]}{d * 40 + i:03d}", "pr": False}]]} for i in range(40)] for d in range(6)]
+    fails = in_fresh_fork(judge_embedded, big)
+    part.case(digest(["embedded-batch"]), True, sample={"documents": 6, "formulas": [40] * 6}, leg="embedded")
+    part.violations += [Violation(c, f"C19:{c}", d, {"kind": "embedded", "docs": big}) for c, d in fails[:1]]
+    return part
 
 
 def run(ctx: Ctx) -> Partial:
@@ -208,9 +273,13 @@ def run(ctx: Ctx) -> Partial:
     known_replays(ctx, part)
     part.merge(shard_map(ctx, "vf.props.c19", "exhaustive_shard", 16))
     part.merge(shard_map(ctx, "vf.props.c19", "random_shard", 16))
+    part.merge(shard_map(ctx, "vf.props.c19", "embedded_shard", 8))
     return part
 
 
 def replay(ctx: Ctx, payload: dict):
     ctx.known = []  # replay judges the raw oracle
+    if payload.get("kind") == "embedded":
+        from vf.props.c08 import in_fresh_fork
+        return [Violation(c, f"C19:{c}", d, payload) for c, d in in_fresh_fork(judge_embedded, payload["docs"])[:1]]
     return evaluate(ctx, payload["model"])
